@@ -1,1 +1,18 @@
 import Reamber.Props.C18
+#print axioms Reamber.Hitsound.consts_tie
+#print axioms Reamber.Hitsound.notes_preserved
+#print axioms Reamber.Hitsound.counts_le
+#print axioms Reamber.Hitsound.all_placed_if_room
+#print axioms Reamber.Hitsound.no_invention
+#print axioms Reamber.Hitsound.samples_conserved
+#print axioms Reamber.Hitsound.file_balance
+#print axioms Reamber.Hitsound.semicolon_counterexample
+#print axioms Reamber.Hitsound.nan_hold_counterexample
+#print axioms Reamber.Hitsound.copyWith_eq
+#print axioms Reamber.Hitsound.groupsLoop_eq
+#print axioms Reamber.Hitsound.applyWrites_eq_fillRows
+#print axioms Reamber.Hitsound.notesPreservedB_iff
+#print axioms Reamber.Hitsound.countsLeB_iff
+#print axioms Reamber.Hitsound.noInventionB_iff
+#print axioms Reamber.Hitsound.samplesConservedB_iff
+#print axioms Reamber.Hitsound.allPlacedIfRoomB_iff
